@@ -3,6 +3,7 @@
 
 #include <queue>
 #include <igris/sync/semaphore.h>
+#include <igris/util/verif_point.h>
 
 namespace igris {
 
@@ -22,24 +23,30 @@ namespace igris {
 
         void push(const T& val) 
         {
+            IGRIS_VERIF_POINT_OBJ("sq.push.wait", &sem);
             sem.wait();
             queue.push(val);
+            IGRIS_VERIF_POINT_OBJ("sq.push.post", &sem);
             sem.post();
         }
 
         T pop() 
         {
+            IGRIS_VERIF_POINT_OBJ("sq.pop.wait", &sem);
             sem.wait();
             T val = queue.front();
             queue.pop();
+            IGRIS_VERIF_POINT_OBJ("sq.pop.post", &sem);
             sem.post();
             return val;
         }
 
         size_t size() 
         {
+            IGRIS_VERIF_POINT_OBJ("sq.size.wait", &sem);
             sem.wait();
             size_t sz = queue.size();
+            IGRIS_VERIF_POINT_OBJ("sq.size.post", &sem);
             sem.post();
             return sz;
         }
